@@ -311,6 +311,12 @@ def oracle_queries(case, d, dev_line, obs, outcome):
 
     want = set(case.get("oracles") or [])
     qs = []
+    if "C07" in want and obs and any(op[0] in ("ev", "eg") for op in case["ops"]):
+        # which properties are enabled is what the driver's code last assigned, nothing else (judged from the history alone)
+        last = max(i for i, op in enumerate(case["ops"]) if op[0] in ("ev", "eg"))
+        for k in sorted({last, len(case["ops"]) - 1}):
+            qs.append(Query("spec flags %s %s %s" % (obs[0]["before"], enc_list(enc_op, case["ops"][:k + 1]), obs[k]["after"]), "True", "oracle",
+                            "after the operations so far a group's / property's enabled switch is not what the driver last assigned"))
     for op, o in zip(case["ops"], obs):
         raised = o["exc"] is not None
         if "C07" in want:
@@ -364,7 +370,7 @@ def random_value(rng, kind, hostile=False):
         return {"t": rng.choice(["On", "Off"])}
     if kind == "light":
         return {"t": rng.choice(STATES)}
-    return rng.choice([{"b": bytes(rng.randrange(256) for _ in range(rng.randint(0, 9))).hex(), "fmt": rng.choice([".fits", ".x", ""]), "reuse": rng.random() < 0.4}, None])
+    return rng.choice([{"b": bytes(rng.randrange(256) for _ in range(rng.randint(0, 9))).hex(), "fmt": rng.choice([".fits", ".x", ""])}, None])
 
 
 def wrong_value(rng, kind):
